@@ -59,8 +59,30 @@ def interval_identities(ctx):
             py_, pm_ = (b.year - 1, 12) if b.month == 1 else (b.year, b.month - 1)
             arm = dd < 0 and dd == dim(b.year, b.month) - dim(py_, pm_)
             fails.append({"a": str(a), "b": str(b), "components": list(comps), "reversed": list(rc), "a_plus_iv": str(back), "full_month_arm": bool(arm)})
+    # endpoints in differently named zones are decomposed as the same two instants expressed in UTC - also when the two zones
+    # happen to share their offset (Paris/Berlin, a fixed +01:00 against Madrid in winter, London against UTC): oracle = the
+    # components of the two instants converted to UTC first
+    pairs = (("Europe/Paris", "Europe/Berlin"), ("Europe/Madrid", 3600), (3600, "Europe/Paris"), ("Europe/London", "UTC"), ("America/Toronto", "America/New_York"),
+             ("Europe/Paris", "America/Toronto"), ("Asia/Kolkata", 19800), ("Asia/Tokyo", "Europe/Paris"), ("Pacific/Auckland", "Pacific/Fiji"))
+    fields = lambda iv: (iv.years, iv.months, iv.weeks, iv.remaining_days, iv.hours, iv.minutes, iv.remaining_seconds, iv.microseconds)
+    for _ in range(N // 5):
+        z1, z2 = rng.choice(pairs)
+        y1 = rng.choice((2019, 2020, 2023, 2024))
+        try:
+            a = pendulum.datetime(y1, rng.randrange(1, 13), rng.choice((1, 1, 28, 29, 30, 31, rng.randrange(1, 29))), rng.choice((0, 0, 1, 12, 23, rng.randrange(24))), rng.randrange(60), 0, tz=pendulum.timezone(z1))
+            b = pendulum.datetime(y1 + rng.choice((0, 0, 1)), rng.randrange(1, 13), rng.choice((1, 1, 28, 29, 30, 31, rng.randrange(1, 29))), rng.choice((0, 0, 1, 12, 23, rng.randrange(24))), rng.randrange(60), 0, tz=pendulum.timezone(z2))
+        except ValueError:
+            continue
+        if a > b:
+            a, b = b, a
+        n += 1
+        got, exp = fields(b - a), fields(b.in_timezone("UTC") - a.in_timezone("UTC"))
+        grev = fields(a - b)
+        if got != exp or grev != tuple(-c for c in exp) or (b - a).in_months() != 12 * exp[0] + exp[1]:
+            fails.append({"a": str(a), "b": str(b), "zones": [str(z1), str(z2)], "components": list(got), "reversed": list(grev), "components_of_the_instants_in_UTC": list(exp),
+                          "clause": "differently_named_zones_decomposed_in_UTC", "full_month_arm": False})
     ctx.record("interval_identities", n, n, "b - a on real Date / naive / UTC / fixed-offset pairs (month-end days, leap years, time borrows): non-negative canonical components, reversed == negated, "
-               "in_months, a + (b - a) == b and add(components) == b", failures=fails, samples=[{"a": "2022-05-02", "b": "2022-06-01", "note": "known finding C06-full-month"}])
+               "in_months, a + (b - a) == b and add(components) == b; pairs in differently named zones (incl. equal offsets) decomposed as their instants in UTC", failures=fails, samples=[{"a": "2022-05-02", "b": "2022-06-01", "note": "known finding C06-full-month"}])
 
 
 def rust(ctx):
